@@ -136,4 +136,14 @@ WellFormed(written, nrows) ==
              /\ lines[k][4] = CSP /\ IsNumCell(lines[k][5])
 
 Expected(cfg) == [i \in 1..cfg.nrows |-> <<XId(Chosen(cfg), i), YId(i), EId(i)>>]
+ExpectedRows(nrows, chosen) == [i \in 1..nrows |-> <<XId(chosen, i), YId(i), EId(i)>>]
+
+-----------------------------------------------------------------------------
+(* What load_xye is asked for and what the returned DataArray must therefore look like   *)
+(* (docstring of load_xye): req = [dim, cname ("" = not given: the coordinate is named    *)
+(* like the dimension), unit, cunit] (strings; "<none>" = unit None).  The file carries   *)
+(* neither names nor units, so they come from the request alone - never from what an      *)
+(* earlier call asked for.                                                                *)
+ExpectedMeta(req) == [dim |-> req.dim, cname |-> IF req.cname = "" THEN req.dim ELSE req.cname,
+                      unit |-> req.unit, cunit |-> req.cunit]
 =============================================================================
